@@ -148,6 +148,8 @@ func runC08(c *Check) {
 
 	// O3 context table
 	c08Context(c, P, r)
+	// O5: exactly this handler's middlewares wrap its function
+	c09All(c, P, r)
 	// O4
 	c02NoPublisher(c, P+".O4")
 	var pubErrCalls []ssa.CallInstruction
@@ -336,6 +338,39 @@ func c08Context(c *Check, P string, r *RouterRoles2) {
 			}
 		}
 		c.Report(okV && okM, P+".O3", "CONTEXT-SET", ctxFn, sc.Pos(), "SetContext", "every given message gets the enriched context (full range)")
+		if u, ok := firstOrigin(Receiver(sc)).(*ssa.UnOp); ok {
+			if ia, ok := u.X.(*ssa.IndexAddr); ok {
+				if inc, isIns := ia.Index.(ssa.Instruction); isIns {
+					c.Report(!ReachWithout(inc, inc, sc), P+".O3", "CONTEXT-SET-EVERY-MESSAGE", ctxFn, sc.Pos(), "SetContext", "no message is skipped: every iteration sets the context (a message that already carries another handler's values is overwritten, not kept)")
+				}
+			}
+		}
+		// every value is written unless the handler's own datum is empty: WithValue calls are guarded only by tests of handler fields
+		for _, wv := range CallsTo(ctxFn, nWithValue) {
+			okG := true
+			for _, t := range Tests(ctxFn) {
+				if !ReachAfter(t.If, nil)[wv] || Dominates(ctxFn, wv, t.If) {
+					continue
+				}
+				f := LoadedField(firstOrigin(t.X))
+				if f == nil && t.Y != nil {
+					f = LoadedField(firstOrigin(t.Y))
+				}
+				isLoopTest := false
+				if bo, isB := t.If.Cond.(*ssa.BinOp); isB {
+					if _, isLen := IsBuiltinCall(bo.Y, "len"); isLen || bo.Op.String() == "<" {
+						isLoopTest = true
+					}
+				}
+				if f == nil && !isLoopTest && !GuardedBy(ctxFn, wv, []Edge{t.True}) == false {
+					// a test on something other than a handler field decides whether this value is written
+					if GuardedBy(ctxFn, wv, []Edge{t.True}) || GuardedBy(ctxFn, wv, []Edge{t.False}) {
+						okG = false
+					}
+				}
+			}
+			c.Report(okG, P+".O3", "CONTEXT-VALUES-UNCONDITIONAL", ctxFn, wv.Pos(), "WithValue "+constKey(wv.Common().Args[1]), "whether a value is written depends only on the handler's own datum being non-empty, not on the message")
+		}
 	}
 	// applied to produced messages before Publish
 	D := r.Dispatch
@@ -403,6 +438,12 @@ func runC09(c *Check) {
 	if r == nil {
 		return
 	}
+	c09All(c, P, r)
+}
+
+// c09All holds the C09 obligations (also run under C08: a foreign handler's
+// middleware wrapping this handler changes what its function receives/returns).
+func c09All(c *Check, P string, r *RouterRoles2) {
 	// the three list fields of Router
 	mwT := c.P.Named("message", "middleware")
 	var lists []*types.Var
@@ -486,6 +527,28 @@ func runC09(c *Check) {
 		}
 	}
 	c.Floor(P+".O1", "middleware registration records", nrec, 2)
+	// the record holds the registered middleware itself (element of the variadic argument), in argument order
+	nh := 0
+	for _, fn := range r.Funcs {
+		for _, stv := range FieldStoresByName(fn, "Handler") {
+			if stv.Val.Type().String() != msgPkg+".HandlerMiddleware" {
+				continue
+			}
+			nh++
+			okEl := false
+			for _, prm := range fn.Params {
+				if AllOrigins(stv.Val, func(o ssa.Value) bool { return isElemOfParam(o, prm) }) {
+					if u, ok := firstOrigin(stv.Val).(*ssa.UnOp); ok {
+						if ia, ok := u.X.(*ssa.IndexAddr); ok && IsFullRangeIndex(ia.Index, ia.X) {
+							okEl = true
+						}
+					}
+				}
+			}
+			c.Report(okEl, P+".O1", "REGISTRATION-STORES-MIDDLEWARE", fn, stv.Pos(), "record.Handler", "each record holds the registered middleware itself, one per element of the argument list in order (not a wrapper closure)")
+		}
+	}
+	c.Floor(P+".O1", "stores of the middleware into a registration record", nh, 2)
 	// Handler.AddMiddleware passes its own handler's name
 	if H := c.P.Named("message", "Handler"); H != nil {
 		if am := c.P.MethodOf(H, "AddMiddleware"); c.Use(P+".O1", am, "Handler.AddMiddleware") {
@@ -830,6 +893,23 @@ func runC10(c *Check) {
 		}
 	}
 	c.Report(okStopped, P+".O4", "STOPPED-AFTER-LOOP", r.StartLit, r.StartLit.Pos(), "close(stopped)", "Stopped() is closed after the handler's run loop returned")
+	for _, cl := range BuiltinCalls(r.StartLit, "close") {
+		if !AllOrigins(cl.Common().Args[0], func(o ssa.Value) bool { return LoadedField(o) == r.HStopped }) {
+			continue
+		}
+		okLast := false
+		for _, del := range BuiltinCalls(r.StartLit, "delete") {
+			if LoadedFieldIsMapOf(del.Common().Args[0], r.HandlerT) && Dominates(r.StartLit, del, cl) {
+				okLast = true
+			}
+		}
+		for _, d := range CallsTo(r.StartLit, nWGDone) {
+			if r.LA.LockID(Receiver(d)) == r.WLoop && !Dominates(r.StartLit, d, cl) {
+				okLast = false
+			}
+		}
+		c.Report(okLast, P+".O4", "STOPPED-IS-LAST", r.StartLit, cl.Pos(), "close(stopped)", "Stopped() is closed only after the handler was released from the wait group and removed from the router (a caller reacting to Stopped() can re-add a handler of that name)")
+	}
 	// O5 self close
 	SC := r.SelfClose
 	closes := Callers([]*ssa.Function{SC}, r.Close)
